@@ -15,7 +15,9 @@ DECIDED = ("MIR makes unwinding explicit, so each clause is a path property: R5.
            "complete, correct write; R5.5 no mem::forget / ManuallyDrop / catch_unwind / abort / exit call site, no non-cleanup call whose "
            "unwind action is `terminate`, no `panic = \"abort\"` profile; restore-then-unlock on unwinding by C04 R4.5 and rustc's drop "
            "elaboration; R5.7 the only other process-global state, the call counters, is reset on the way into every installation (C07 R7.1), so "
-           "a lifetime that ended by unwinding leaves nothing behind for the next one")
+           "a lifetime that ended by unwinding leaves nothing behind for the next one; R5.8 on every path of an install root a restore guard is "
+           "constructed only after a write at its address has succeeded (so a refused installation unwinds with no guard for the refused "
+           "target: the guard's destructor would repeat the refused protection change and panic during unwinding)")
 NOT_DECIDED = ("aborts caused by allocation failure inside std; panics inside a user fake with a non-unwinding ABI (excluded by the property)")
 
 ABORTING = ("std::process::abort", "std::process::exit", "std::panic::catch_unwind", "std::intrinsics::abort", "core::intrinsics::abort",
@@ -189,6 +191,34 @@ def run(ck, models, tier):
                       "a path diverges after writing the entry: %s" % ("the cache flush primitive reported failure after the complete write (tabulated)" if flush
                                                                         else "the function is left patched with no guard to restore it [%s]" % fmt_dec(v)),
                       where(ent[-1][0]))
+        # ---------------- R5.8 a restore guard exists only for a target whose entry has been written on this path
+        # (premise of R5.2's tabulated environment faults: the guard's destructor repeats the protection change and the write; if
+        # the guard is alive while the first attempt can still be refused, unwinding from that refusal runs the destructor into
+        # the same refusal - a second panic, i.e. an abort)
+        from .roles import get_by_path
+        n58 = 0
+        if g_.adt and g_.addr:
+            for p, func, repl, boolval in roots:
+                rn = short(p)
+                for v in tm.variants(p):
+                    for path, tl, span, val in v.constructed:
+                        if path != g_.adt:
+                            continue
+                        n58 += 1
+                        try:
+                            addr = get_by_path(val, g_.addr)
+                        except Exception:
+                            addr = None
+                        wr = [ev for ev in code_writes(v) if ev.idx < tl and isinstance(addr, Int) and
+                              (same_expr(resolve_alias(v, ev.extra["dst"])[0].e, addr.e) or same_expr(ev.extra["dst"].e, addr.e))]
+                        ck.ob("R5.8", "%s/guard-built-after-entry-write" % rn, tm.target, bool(wr),
+                              "restore guard for %s is constructed %s" % (fmt(addr.e, 3) if isinstance(addr, Int) else "?",
+                                  "after the entry write succeeded" if wr else "BEFORE any write at that address has succeeded on this path "
+                                  "(path %s): if the write is refused (protection change fails) the panic unwinds through the live guard, whose "
+                                  "destructor attempts the same protection change, is refused again and panics inside a destructor during "
+                                  "unwinding - the process aborts" % v.status),
+                              "%s:%s" % (span["file"], span["line"]) if span else None)
+            ck.floor("R5.8", "guard-constructions-on-install-paths", n58, 6, tm.target)
         # ---------------- R5.5
         ab = scans.abort_sites(tm.facts) + scans.forget_sites(tm.facts)
         for fn, name, t in ab:
